@@ -1,4 +1,4 @@
-import KitProofs.Lemmas.RunnerCloserAll
+import KitProofs.Lemmas.RunnerTrace
 /-!
 # C12 — runner / closer managers: the property theorems
 
@@ -101,11 +101,6 @@ example : ∃ s, RM.Reach s ∧ s.cancelled = true ∧ s.parentCancelled = false
   ⟨_, RM.reach_runLabels [.add 2 true, .runCall, .runCas, .spawn, .spawn, .start 0, .ret 0 .nil,
       .deliver 0, .cancelBy 0] rfl, rfl, rfl, rfl⟩
 
-/-- The value a runner goroutine carries: what its body returned. -/
-def RPc.retVal : RPc → Option Ret
-  | .returned v | .delivered v | .done v => some v
-  | _ => none
-
 /-- **error_is_join_of_real_errors.** What `Run` returns is, as a multiset, exactly the non-nil,
 non-`Canceled` errors among the values the runner bodies returned (order = order of hand-over). -/
 theorem error_is_join_of_real_errors {s : RM} (hr : RM.Reach s) (es : List Nat)
@@ -129,6 +124,14 @@ example : ∃ s, RM.Reach s ∧ s.result = some [7, 5] :=
   ⟨_, RM.reach_runLabels [.add 3 true, .runCall, .runCas, .spawn, .spawn, .spawn, .start 2, .start 0,
       .start 1, .ret 1 (.err 7), .ret 0 (.err 5), .ret 2 .canceled, .deliver 1, .deliver 2,
       .deliver 0, .runRet] rfl, rfl⟩
+
+/-- Event-log form of `run_returns_after_all`: in every execution, when `Run` returns, the log
+contains a `ret i v` event for every registered runner `i`. -/
+theorem run_returns_after_all_trace {tr : List RLabel} {s s' : RM} (he : RM.Exec tr s)
+    (hs : s.step .runRet = some s') (i : Nat) (hi : i < s.pcs.length) : ∃ v, RLabel.ret i v ∈ tr := by
+  have hd := all_started (RM.reach_of_exec he) hs i _ (List.getElem?_eq_getElem hi)
+  obtain ⟨v, hv⟩ := RPc.retVal_of_isDelivered _ hd
+  exact ⟨v, RM.ret_in_trace he i _ v (List.getElem?_eq_getElem hi) hv⟩
 
 /-- What a runner body returned is never altered afterwards. -/
 theorem runner_value_stable {s s' : RM} (a : RLabel) (hs : s.step a = some s') (i : Nat) (p : RPc)
@@ -190,6 +193,16 @@ theorem closers_after_runners {cfg : Cfg} {s s' : RCM} (hr : RCM.Reach cfg s) (j
     · simp only [RCM.step] at hs; split at hs <;> grind
   have h4 : 4 ≤ s.opc.rank := by simp [h5, OPc.rank]
   exact ⟨(inv.a.got_inner h4).1, inner_runners_done hr h4⟩
+
+/-- Event-log form: in every execution, a closer-start event is preceded in the log by a return
+event of every runner of the inner manager (every user runner and the closeCh runner). -/
+theorem closers_after_runners_trace {cfg : Cfg} {tr : List Label} {s s' : RCM}
+    (he : RCM.Exec cfg tr s) (j : Nat) (hs : s.step cfg (.cstart j) = some s')
+    (i : Nat) (hi : i < s.inner.pcs.length) : ∃ v, Label.inner (.ret i v) ∈ tr := by
+  have hd := (closers_after_runners (RCM.reach_of_exec he) j (Or.inl hs)).2 i _
+    (List.getElem?_eq_getElem hi)
+  obtain ⟨v, hv⟩ := RPc.retVal_of_isDelivered _ hd
+  exact ⟨v, RCM.ret_in_trace he i _ v (List.getElem?_eq_getElem hi) hv⟩
 
 /-- State form: in every reachable state, a closer that is not idle implies all runners are done. -/
 theorem closers_after_runners_state {cfg : Cfg} {s : RCM} (hr : RCM.Reach cfg s) (j : Nat) (p : CPc)
